@@ -108,6 +108,7 @@ asn1f_lookup_in_imports(arg_t *arg, asn1p_module_t *mod, const char *name) {
 asn1p_module_t *
 asn1f_lookup_module(arg_t *arg, const char *module_name, const asn1p_oid_t *oid) {
 	asn1p_module_t *mod;
+	asn1p_module_t *by_name = NULL;
 
 	assert(module_name);
 
@@ -162,9 +163,25 @@ asn1f_lookup_module(arg_t *arg, const char *module_name, const asn1p_oid_t *oid)
 			}
 		}
 	
-		if(strcmp(module_name, mod->ModuleName) == 0)
-			return mod;
+		if(strcmp(module_name, mod->ModuleName) == 0) {
+			if(by_name) {
+				/*
+				 * Two editions of the module (same name, different
+				 * OIDs) are among the inputs and the reference does
+				 * not say which one it means: picking the first one
+				 * would make the result depend on the order of the
+				 * files on the command line.
+				 */
+				FATAL("Ambiguous reference: %s matches several "
+					"modules, use OBJECT IDENTIFIER in IMPORTS",
+					module_name);
+				errno = ETOOMANYREFS;
+				return NULL;
+			}
+			by_name = mod;
+		}
 	}
+	if(by_name) return by_name;
 
 	DEBUG("\tModule \"%s\" not found", module_name);
 
